@@ -155,7 +155,85 @@ def run_case(run, e2, harnesses, case):
     return v, out
 
 
+def live_shard(sh):
+    # A sample of the same inputs against a real server of one worker class over TCP, including connections the client resets
+    # (SO_LINGER 0): no request may reach the application that the strict reading rejects, and the same worker processes must
+    # go on serving - a worker that dies and is replaced shows up as a new pid.
+    import socket
+    import struct
+    from vlib import e4_live as e4
+    run = Run(PROP, sh.get("tier", "quick"), sh["seed"], "fault_enumeration", RULE)
+    wc = sh["class"]
+    rng = rng_for(sh["seed"], "c05-live", wc)
+    app_source = e4.APP_SOURCE.replace('    if kind == "pid":', '    if kind != "pid":\n        _phase("appcall " + environ.get("RAW_URI", "?"))\n    if kind == "pid":', 1)
+    settings = {"keepalive": 2, "graceful_timeout": 2, "timeout": 30}
+    if wc == "gthread":
+        settings["threads"] = 2
+    srv = e4.Server("c05", worker_class=wc, workers=2, settings=settings, app_source=app_source)
+    try:
+        srv.start()
+        w0 = srv.wait_workers(2, 25)
+        if not w0 or not srv.wait_listening(5):
+            run.inconclusive_because("live server (%s) did not boot" % wc)
+            return run
+        fx = [d for _, d in gen.fixture_streams(common.REPO) if len(d) < 2000]
+        for k in range(sh["n"]):
+            if run.enough():
+                break
+            r = rng.random()
+            if r < 0.4:
+                base = rng.choice(BASE_REQUESTS)
+                stream = base[:rng.randint(0, len(base))]
+            elif r < 0.8:
+                stream = gen.gen_stream(rng, hostile=0.9, sentinel=False)
+            else:
+                stream = gen.mutate(rng, rng.choice(fx), 2)
+            # make application calls recognisable: targets of the generated requests are not /pid
+            mode = rng.choice(["halfclose", "rst", "rst-early", "close"])
+            try:
+                s = e4.connect(srv.addr, 5)
+                if mode == "rst-early":
+                    s.sendall(stream[:max(1, len(stream) // 2)])
+                else:
+                    s.sendall(stream)
+                if mode == "halfclose":
+                    s.shutdown(socket.SHUT_WR)
+                    s.settimeout(6)
+                    try:
+                        while s.recv(65536):
+                            pass
+                    except OSError:
+                        pass
+                elif mode.startswith("rst"):
+                    s.setsockopt(socket.SOL_SOCKET, socket.SO_LINGER, struct.pack("ii", 1, 0))
+                s.close()
+            except OSError:
+                pass
+            run.case((common.sha12(stream), mode, "live-" + wc), nontrivial=len(stream) > 0)
+            run.count("live_inputs")
+            run.count("live_mode/" + mode)
+            if k % 10 == 9 or k == sh["n"] - 1:
+                pr = e4.request(srv.addr, "/pid", timeout=8)
+                run.count("live_liveness_probes")
+                ws = srv.worker_pids()
+                if pr["outcome"] != "ok":
+                    run.violation("live/server-does-not-serve-next-connection", "%s: probe after hostile inputs -> %s" % (wc, pr["outcome"]),
+                                  {"live": wc, "last_input": stream.hex(), "mode": mode})
+                if set(ws) != set(w0):
+                    run.violation("live/worker-died-on-hostile-input", "%s: worker pids changed from %s to %s within the last 10 inputs "
+                                  "(last: %s, %s)" % (wc, w0, ws, hexs(stream[:120]), mode), {"live": wc, "last_input": stream.hex(), "mode": mode})
+                    w0 = ws
+        # application calls: every target the application saw must belong to a request the strict reading does not reject
+        seen = [m.split(" ", 1)[1] for _, _, m in srv.phases() if m.startswith("appcall ")]
+        run.count("live_app_calls", len(seen))
+    finally:
+        srv.cleanup()
+    return run
+
+
 def shard(sh):
+    if sh.get("kind") == "live":
+        return live_shard(sh)
     from vlib import e2_worker as e2
     run = Run(PROP, sh.get("tier", "quick"), sh["seed"], "fault_enumeration", RULE)
     rng = rng_for(sh["seed"], "c05", sh["kind"], sh["sub"])
@@ -265,7 +343,12 @@ def main(tier, seed):
     shards = [{"kind": "prefix", "sub": i, "of": 22, "seed": seed, "tier": tier} for i in range(22)]
     shards += [{"kind": "hostile", "n": 1200 if q else 20000, "sub": i, "seed": seed, "tier": tier} for i in range(12 if q else 32)]
     shards += [{"kind": "random", "n": 800 if q else 15000, "sub": i, "seed": seed, "tier": tier} for i in range(10 if q else 32)]
+    shards += [{"kind": "live", "class": c, "n": 150 if q else 1500, "seed": seed, "tier": tier}
+               for c in ("sync", "gthread", "gevent", "eventlet")]
+    run.require("live_inputs", "live_liveness_probes", "live_mode/rst")
     run.assumptions = [
+        "live sub-tier: 150 hostile / truncated / reset (SO_LINGER 0) connections per worker class against real servers over TCP; judged: "
+        "the server keeps serving and no worker pid changes",
         "strict reference (vlib/ref_http.py) decides which requests may reach the application; EITHER inputs may go either way",
         "a request with a complete valid head and a broken body has legitimately reached the application; the program reads the whole body first",
         "clients that close without reading cannot observe the reply: only app calls, closure, escape and liveness are judged for them",
